@@ -159,7 +159,7 @@ func Gen(t *rapid.T, o Opts) Prog {
 
 // GenChain draws a program whose stores form a chain of `depth` stages (each store reads the previous one)
 // below an output mapper: the shape with the most scheduling dependencies per segment.
-func GenChain(t *rapid.T, depth int, inits []uint64) Prog {
+func GenChain(t *rapid.T, depth int, inits []uint64, late ...uint64) Prog {
 	g := gdsl.Graph{}
 	kindsAll := sdsl.AllKinds()
 	prev := ""
@@ -181,6 +181,17 @@ func GenChain(t *rapid.T, depth int, inits []uint64) Prog {
 		}
 		g.Mods = append(g.Mods, m)
 		prev = m.Name
+	}
+	if len(late) > 0 && rapid.IntRange(0, 2).Draw(t, "latefirst") == 0 {
+		// the lowest stage starts late (several segments in) while the stages above it start early: below that
+		// block the lowest stage has nothing to build
+		for i := range g.Mods {
+			if g.Mods[i].Name == "store_0" || g.Mods[i].Name == "side_0" {
+				g.Mods[i].Initial = rapid.SampledFrom(late).Draw(t, "lateinit")
+			} else {
+				g.Mods[i].Initial = rapid.SampledFrom([]uint64{0, 0, 1}).Draw(t, "earlyinit")
+			}
+		}
 	}
 	out := gdsl.Mod{Name: "out", Kind: "map", Initial: rapid.SampledFrom(inits).Draw(t, "outinit"),
 		Inputs: []gdsl.In{{T: "source", Ref: gdsl.ClockType}, {T: "store", Ref: prev, Mode: rapid.SampledFrom([]string{"get", "deltas"}).Draw(t, "outmode")}}}
